@@ -4,14 +4,14 @@ SPEC = dict(
     driver='c02_dochash',
     extra=['ref/ref.c', 'ref/ref_sig.c', 'ref/ref_pdu.c', 'ref/ref_pki.c', 'simnet.c'],
     rule='For each of the six verifying policies a world is built in which the signature is bound to a MATCHING trust anchor (user publication, user publications file with certificate, '
-         'simulated extender), so the only reason for a non-OK verdict is the document hash / level. A case = (policy x signature variant {first level correction 0,1,3,7,254; legacy RFC3161 form}) x '
+         'simulated extender), so the only reason for a non-OK verdict is the document hash / level. A case = (policy x signature variant {first level correction 0,1,3,7,254; legacy RFC3161 forms; a first chain of three links with corrections absent, 2, 1}) x '
          'part: (hashes) equal hash, EVERY single-bit flip of the digest, same digest under two other algorithms, two other lengths; (levels) EVERY level 0..300 plus 7 boundary values up to 2^64-1, with and '
          'without document hash; (both) levels with a foreign digest. Interfaces: KSI_SignatureVerifier_verify, KSI_Signature_verifyWithPolicy with and without caller context, KSI_verifyDataHash. '
          'Document part: a key-based fixture signature over the hash of a real 45-byte document under SHA-256 / SHA-384 / SHA-512 / RIPEMD-160 with the context-wide anchors '
          '(publications URL served by the fixture): KSI_Signature_verifyDocument, KSI_verifySignature and KSI_verifyDataHash accept the document / its hash and refuse every '
          'single-bit change of the document (360), every other length (prefixes, one byte more, empty) and the document hashed with another algorithm. '
          'Further: document-bytes helpers (KSI_Signature_verifyDocument, KSI_verifySignature, KSI_verifyDataHash with context-wide anchors), KSI_Signature_fromFileWithPolicy, the context cleaned and used again.',
-    bounds=dict(quick='signature variants {lc 3, RFC3161} for all six policies (+ lc 254 internal, lc 1 key-based)', thorough='all six signature variants x six policies'),
+    bounds=dict(quick='signature variants {lc 3, RFC3161} for all six policies (+ lc 254 internal, lc 1 key-based and general, three-link first chain internal; lc 1 also general)', thorough='all nine signature variants x six policies'),
     technique='bounded-exhaustive enumeration of document hashes (all single-bit flips) and levels (0..300 + boundaries) x policies on the compiled code against the stated verdict table',
     level_text='All single-bit perturbations of the document digest, all levels 0..300 and the 32/64-bit boundary levels are verified under each of the six verifying policies with a matching anchor; the verdict (OK / FAIL GEN-01 / GEN-04 / GEN-03 / refused) is compared with the table stated by the property.',
     level_note='Trusted: reference signature/PKI models, simulated extender. Digest perturbations with more than one flipped bit are not enumerated.',
